@@ -1,4 +1,5 @@
 #include "FileWriter.h"
+#include "VerifTrace.h"
 #include "../XFile.h"
 #include <stdexcept>
 
@@ -78,6 +79,7 @@ namespace OP2Utility::Stream
 
 	void FileWriter::WriteImplementation(const void* buffer, std::size_t size)
 	{
+		OP2UTILITY_VERIF_SCOPE("filew", "Write", size, 0);
 		file.write(static_cast<const char*>(buffer), size);
 	}
 
@@ -97,11 +99,13 @@ namespace OP2Utility::Stream
 
 	void FileWriter::Seek(uint64_t position)
 	{
+		OP2UTILITY_VERIF_SCOPE("filew", "Seek", position, 0);
 		file.seekp(position);
 	}
 
 	void FileWriter::SeekForward(uint64_t offset)
 	{
+		OP2UTILITY_VERIF_SCOPE("filew", "SeekForward", offset, 0);
 		uint64_t newPosition = Position() + offset;
 		
 		if (newPosition < Position()) {
@@ -113,6 +117,7 @@ namespace OP2Utility::Stream
 
 	void FileWriter::SeekBackward(uint64_t offset)
 	{
+		OP2UTILITY_VERIF_SCOPE("filew", "SeekBackward", offset, 0);
 		if (offset > Position()) {
 			throw std::runtime_error("Change in offset puts write position before beginning bounds of file.");
 		}
